@@ -285,22 +285,32 @@ theorem nearest64_unfold (ds : List Nat) (e : Int) (hD : ofDigits 10 ds ≠ 0) (
 
 open Dec2Bin in
 /-- **nearest_correct_partial**: for every positive rational `x = N / M` the reference returns the encoding of
-`m · 2^q` where `2^q` is the unit in the last place of the binade of `x` (`2^(p-1) ≤ ⌊x/2^q⌋ < 2^p`, or
-`q = emin` in the subnormal range: gradual underflow), `m` is the integer nearest to `x / 2^q` — error at most
-half a unit in the last place, no multiple of `2^q` is closer, the even `m` on a tie — and `+∞` when the
-encoding reaches the infinity pattern.  *Partial* with respect to DESIGN's `IsNearestEven`: the comparison
-against representable values of a *smaller* exponent (finer grid below the binade of `x`, which cannot be
-closer than half an ulp either) and the identification of the overflow threshold with
-`(2 - 2^-p)·2^emax` are not formalised. Stated for both formats. -/
+`m · 2^q` (or `+∞` when that encoding reaches the infinity pattern) where, with `A / B = x / 2^q` exactly:
+* `q ≥ emin`, and `2^q` is the unit in the last place of the binade of `x`: `⌊x/2^q⌋ < 2^p`, and `≥ 2^(p-1)` unless
+  `q = emin` (gradual underflow); `m ≤ 2^p`;
+* `|x/2^q − m| ≤ ½` and on a tie `m` is even (round to nearest, ties to even);
+* no multiple `k · 2^q` is closer to `x` — this covers every representable value of exponent `≥ q`;
+* no value `m' · 2^q / T` (`T ≥ 2` a power of two, `m' < 2^p`) of a *smaller* exponent is closer either (they exist
+  only when `q > emin`) — so `m · 2^q` is nearest to `x` among all finite values of the format.
+*Partial* with respect to DESIGN's `IsNearestEven`: not packaged as one predicate over decoded bit patterns; the
+saturation test `encode ≥ infBits` is not identified with `m·2^q ≥ 2^(emax+1)`; the two cut-offs of `nearestDec`
+(`e > 400`, `e + len < −400`) and monotonicity are only tested by the correspondence run. -/
 theorem nearest_correct_partial (f : Fmt) (hf : f = binary64 ∨ f = binary32) (N M : Nat) (hN : 0 < N) (hM : 0 < M) :
     ∃ (q : Int) (A B m : Nat),
       f.emin ≤ q ∧ 0 < B ∧ A * (M * 2 ^ q.toNat) = N * 2 ^ (-q).toNat * B ∧
       (2 * A ≤ 2 * (m * B) + B ∧ 2 * (m * B) ≤ 2 * A + B) ∧
       ((2 * A = 2 * (m * B) + B ∨ 2 * (m * B) = 2 * A + B) → m % 2 = 0) ∧
       (∀ k, (2 * A - 2 * (m * B)) + (2 * (m * B) - 2 * A) ≤ (2 * A - 2 * (k * B)) + (2 * (k * B) - 2 * A)) ∧
+      (f.emin < q → ∀ T m', 2 ≤ T → m' < 2 ^ f.p →
+        2 * (B * m') ≤ 2 * (A * T) ∧
+        ((2 * A - 2 * (m * B)) + (2 * (m * B) - 2 * A)) * T ≤ 2 * (A * T) - 2 * (B * m')) ∧
       A / B < 2 ^ f.p ∧ (f.emin < q → 2 ^ (f.p - 1) ≤ A / B) ∧ m ≤ 2 ^ f.p ∧ (f.emin < q → 2 ^ (f.p - 1) ≤ m) ∧
-      nearestRat f N M = Nat.min (encode f m q) f.infBits :=
-  nearestRat_spec f (by rcases hf with h | h <;> subst h <;> decide) N M hN hM
+      nearestRat f N M = Nat.min (encode f m q) f.infBits := by
+  have hp : 2 ≤ f.p := by rcases hf with h | h <;> subst h <;> decide
+  obtain ⟨q, A, B, m, h1, h2, h3, h4, h5, h6, h7, h8, h9, h10, h11⟩ := nearestRat_spec f hp N M hN hM
+  exact ⟨q, A, B, m, h1, h2, h3, h4, h5, h6,
+    fun hq T m' hT hm' => finer_grid_not_closer f.p A B m m' T h2 (by omega) (h8 hq) hm' hT h4,
+    h7, h8, h9, h10, h11⟩
 
 open Dec2Bin in
 /-- **nearest_exact_on_representable**: a positive finite value `m · 2^q` of the format (canonical
